@@ -121,6 +121,19 @@ let judge id c obs inj_args ncommits (sel : int list option) where =
     if List.exists (fun (_, a, _) -> a > 0) items3 then count "runs_with_same_named_items";
     if List.exists (fun (_, _, e) -> e <> []) items3 then count "runs_with_colliding_extra_keys";
     if field_opt "pa" c <> None then count "runs_with_print_actions";
+    (* round 4: content of values *)
+    if field_opt "abbrev7" obs <> None then count "runs_with_two_commits_sharing_their_7_digit_abbreviation";
+    if field_opt "twins" c <> None then count "runs_with_hash_twins_searched_by_the_generator";
+    if field_opt "names" c <> None then count "runs_with_styled_item_and_entity_names";
+    let now = int_of_float (Unix.time ()) in
+    let ext = List.filter_map (fun s -> match list_of_sx s with
+        | [_; tm; _; L [at; ctz; atz; _]] -> Some (int_of_sx tm, int_of_sx at, int_of_sx ctz, int_of_sx atz)
+        | _ -> None) (args (field "commits" c)) in
+    if List.exists (fun (tm, _, _, _) -> tm > now) ext then count "runs_with_a_commit_dated_after_the_wall_clock";
+    if ext <> [] && List.for_all (fun (tm, _, _, _) -> tm > now) ext then count "runs_with_every_commit_dated_after_the_wall_clock";
+    if List.exists (fun (tm, _, _, _) -> tm < 0) ext then count "runs_with_a_commit_dated_before_1970";
+    if List.exists (fun (tm, at, _, _) -> tm <> at) ext then count "runs_with_author_time_different_from_committer_time";
+    if List.exists (fun (_, _, ctz, atz) -> ctz <> 0 || atz <> 0) ext then count "runs_with_non_zero_zone_offsets";
     let nitems = List.length items in
     let times = Hashtbl.create 16 in
     (* committer times as the implementation read them *)
